@@ -82,9 +82,9 @@ Inductive front_error :=
 | FEUnsupportedEdgeFilter (e : string)
 | FEUnsupportedEdgeTag (e : string)
 | FEUnsupportedDirectiveOnFoldedEdge (e d : string)
-| FEMissingRequiredEdgeParameter (p e : string)
-| FEUnexpectedEdgeParameter (p e : string)
-| FEInvalidEdgeParameterType (p e t : string) (v : fv)
+| FEMissingRequiredEdgeParam (p e : string)
+| FEUnexpectedEdgeParam (p e : string)
+| FEInvalidEdgeParamType (p e t : string) (v : fv)
 | FERecursingNonRecursableEdge (e s d : string)
 | FERecursionToSubtype (e s d : string)
 | FEAmbiguousOriginEdgeRecursion (e : string)
@@ -629,13 +629,13 @@ Fixpoint edge_params_loop (edge_name : string) (args : list arg) (specified : li
             end
         | Some value =>
             do b <- ty_valid t value;
-            Ok (if negb b then errors ++ [FEInvalidEdgeParameterType arg_name edge_name (gty_text (a_ty a)) value]
+            Ok (if negb b then errors ++ [FEInvalidEdgeParamType arg_name edge_name (gty_text (a_ty a)) value]
                 else errors, Some value)
         end;
       match snd sv with
       | None =>
           edge_params_loop edge_name rest specified
-            (fst sv ++ [FEMissingRequiredEdgeParameter arg_name edge_name]) edge_arguments
+            (fst sv ++ [FEMissingRequiredEdgeParam arg_name edge_name]) edge_arguments
       | Some value =>
           match amap_insert_new arg_name value edge_arguments with
           | None => Panic site_param_insert
@@ -649,7 +649,7 @@ Definition make_edge_parameters (edge_definition : fld) (specified : list (strin
   let errors := fst r in
   let edge_arguments := snd r in
   let unexpected :=
-    map (fun kv => FEUnexpectedEdgeParameter (fst kv) (f_name edge_definition))
+    map (fun kv => FEUnexpectedEdgeParam (fst kv) (f_name edge_definition))
         (filter (fun kv => match lookup_str (fst kv) edge_arguments with Some _ => false | None => true end)
                 specified) in
   match errors ++ unexpected with
@@ -1467,9 +1467,9 @@ Definition show_front_error (e : front_error) : string :=
   | FEUnsupportedEdgeFilter x => "UnsupportedEdgeFilter " ++ hex x
   | FEUnsupportedEdgeTag x => "UnsupportedEdgeTag " ++ hex x
   | FEUnsupportedDirectiveOnFoldedEdge x d => "UnsupportedDirectiveOnFoldedEdge " ++ hex x ++ " " ++ hex d
-  | FEMissingRequiredEdgeParameter p x => "MissingRequiredEdgeParameter " ++ hex p ++ " " ++ hex x
-  | FEUnexpectedEdgeParameter p x => "UnexpectedEdgeParameter " ++ hex p ++ " " ++ hex x
-  | FEInvalidEdgeParameterType p x t v => "InvalidEdgeParameterType " ++ hex p ++ " " ++ hex x ++ " " ++ hex t ++ " " ++ show_fv v
+  | FEMissingRequiredEdgeParam p x => "MissingRequiredEdgeParam " ++ hex p ++ " " ++ hex x
+  | FEUnexpectedEdgeParam p x => "UnexpectedEdgeParam " ++ hex p ++ " " ++ hex x
+  | FEInvalidEdgeParamType p x t v => "InvalidEdgeParamType " ++ hex p ++ " " ++ hex x ++ " " ++ hex t ++ " " ++ show_fv v
   | FERecursingNonRecursableEdge x s d => "RecursingNonRecursableEdge " ++ hex x ++ " " ++ hex s ++ " " ++ hex d
   | FERecursionToSubtype x s d => "RecursionToSubtype " ++ hex x ++ " " ++ hex s ++ " " ++ hex d
   | FEAmbiguousOriginEdgeRecursion x => "AmbiguousOriginEdgeRecursion " ++ hex x
